@@ -140,6 +140,13 @@ class Iface:
         out = []
         for s, has in self.X.branch(st, z3.Or([cn == core.strlit(c) for c in owners] or [z3.BoolVal(False)])):
             if has:
+                # a field of the other primitive's representation: the child contract does not expose it, so
+                # a read yields an unconstrained value (numeric leaf fields only; containers stay out of reach)
+                if name in ("sum", "mean", "varianceTimesEntries", "min", "max"):
+                    f, wf = Fl.sym(f"havoc.{name}!{core.uid()}")
+                    s.add(wf)
+                    out.append(Res(s, VFl(f)))
+                    continue
                 raise Unsupported(f"attribute {name} of abstract child of class in {owners}")
             out.extend(self.X.raise_(s, "AttributeError", name))
         return out
